@@ -243,6 +243,10 @@ func cpuNow() time.Duration {
 
 var c14Current atomic.Value // description of the call being measured (for the watchdog)
 
+// c14HeapAtCallStart: the heap in use when the call being measured began; the watchdog judges
+// what the call itself added, not what the process happened to hold before it
+var c14HeapAtCallStart atomic.Uint64
+
 func call(entry, expr string, list []string) (panicked string) {
 	switch entry {
 	case "satisfies":
@@ -266,6 +270,7 @@ func measure(entry, expr string, list []string) (s costSample, panicked string) 
 	for rep := 0; rep < 3; rep++ {
 		var m0, m1 runtime.MemStats // TotalAlloc / Mallocs are cumulative: no GC needed in between
 		runtime.ReadMemStats(&m0)
+		c14HeapAtCallStart.Store(m0.HeapAlloc)
 		c0 := cpuNow()
 		p := call(entry, expr, list)
 		c1 := cpuNow()
@@ -438,14 +443,18 @@ func startWatchdog(rec *Recorder, t *testing.T) (stop func()) {
 			var m runtime.MemStats
 			runtime.ReadMemStats(&m)
 			over := time.Since(started) > c14WatchdogWall
-			if !over && m.HeapAlloc < c14HeapLimit {
+			grown := uint64(0)
+			if base := c14HeapAtCallStart.Load(); m.HeapAlloc > base {
+				grown = m.HeapAlloc - base
+			}
+			if !over && grown < c14HeapLimit {
 				continue
 			}
 			check := "c14-growth"
 			if cc.Expr != "" {
 				check = "c14-absolute"
 			}
-			what := fmt.Sprintf("heap reached %d MB", m.HeapAlloc>>20)
+			what := fmt.Sprintf("the heap grew by %d MB during the call (HeapAlloc %d MB, NextGC %d MB, NumGC %d)", grown>>20, m.HeapAlloc>>20, m.NextGC>>20, m.NumGC)
 			if over {
 				what = fmt.Sprintf("the call did not return within %v", c14WatchdogWall)
 			}
